@@ -98,7 +98,8 @@ int main(int argc, char** argv) {
       if (!strcmp(how, "new"))        { o = (T == Tuple) ? (var)new(Tuple, $I(1), $I(2), $I(3), $I(4)) : (T == Array) ? (var)new(Array, Int, $I(1)) : (T == String) ? (var)new(String, $S("abc")) : (T == Probe) ? (var)new(Probe, $I(5)) : new_with(T, tuple(MK(T))); reg = 1; }
       else if (!strcmp(how, "new_raw")) { o = (T == Tuple) ? (var)new_raw(Tuple, $I(1), $I(2), $I(3), $I(4)) : (T == Array) ? (var)new_raw(Array, Int, $I(1)) : (T == String) ? (var)new_raw(String, $S("abc")) : (T == Probe) ? (var)new_raw(Probe, $I(5)) : new_raw_with(T, tuple(MK(T))); }
       else if (!strcmp(how, "new_root")) { o = (T == Tuple) ? (var)new_root(Tuple, $I(1), $I(2), $I(3), $I(4)) : (T == Array) ? (var)new_root(Array, Int, $I(1)) : (T == String) ? (var)new_root(String, $S("abc")) : (T == Probe) ? (var)new_root(Probe, $I(5)) : new_root_with(T, tuple(MK(T))); reg = 1; }
-      else if (!strcmp(how, "alloc"))  { o = alloc(T); reg = 1; if (T == String) ((struct String*)o)->val = calloc(1, 1); if (T == Tuple) { ((struct Tuple*)o)->items = malloc(sizeof(var)); ((struct Tuple*)o)->items[0] = Terminal; } if (T == Probe) probe_issue(o, 5); }
+      else if (!strcmp(how, "alloc") || !strcmp(how, "alloc_raw") || !strcmp(how, "alloc_root")) {
+        o = !strcmp(how, "alloc") ? alloc(T) : !strcmp(how, "alloc_raw") ? alloc_raw(T) : alloc_root(T); reg = strcmp(how, "alloc_raw") ? 1 : 0; if (T == String) ((struct String*)o)->val = calloc(1, 1); if (T == Tuple) { ((struct Tuple*)o)->items = malloc(sizeof(var)); ((struct Tuple*)o)->items[0] = Terminal; } if (T == Probe) probe_issue(o, 5); }
       else if (!strcmp(how, "stack"))  { o = (T == Float) ? sF : (T == String) ? sS : (T == Tuple) ? sT : sI; if (T != Int && T != Float && T != String && T != Tuple) wantT = Int; wantcls = "stack"; }
       else if (!strcmp(how, "copy"))   { var src = (T == String) ? sS : (T == Float) ? sF : sI; o = copy(src); wantT = type_of(src); reg = 1; }
       else if (!strcmp(how, "static")) { o = T; wantT = Type; wantcls = "static"; }
@@ -152,6 +153,7 @@ int main(int argc, char** argv) {
       else if (!strcmp(op, "del_root"))    HC_TRY(del_root(o));
       else if (!strcmp(op, "dealloc"))     HC_TRY(dealloc(o));
       else if (!strcmp(op, "dealloc_raw")) HC_TRY(dealloc_raw(o));
+      else if (!strcmp(op, "dealloc_root")) HC_TRY(dealloc_root(o));
       else if (!strcmp(op, "resize"))      HC_TRY(resize(o, (tt == Tuple && len(o) > 0) ? len(o) - 1 : 1));      /* a Tuple only shrinks, and strictly */
       else if (!strcmp(op, "assign"))      HC_TRY(assign(o, tt == String ? (var)$S("xy") : tt == Tuple ? (var)tuple($I(4)) : (var)$I(1)));
       else if (!strcmp(op, "concat"))      HC_TRY(concat(o, tt == String ? (var)$S("zz") : (var)tuple($I(4))));
